@@ -33,125 +33,148 @@ Proof. intros R. exact (i_stop _ (inv_reach _ _ R)). Qed.
 Lemma accounting cf s : reach cf s -> Forall cwf (conns s).
 Proof. intros R. exact (i_wf _ (inv_reach _ _ R)). Qed.
 
-(* per connection, on the guarded schedules *)
-Definition quiet_pc (p : cpc) : bool :=
-  match p with CLoopTop | CPeek | CStoredT | CExiting | CUnreg | CClosed => true | _ => false end.
+(* per connection, as long as Shutdown has not given up (returned ctx.Err()) *)
+Definition closed_ok_pc (p : cpc) : bool :=
+  match p with CLoopTop | CPeek | CGotByte | CActive | CStopSeen | CStoredT | CExiting | CUnreg | CClosed => true | _ => false end.
 
 Definition idle_marked_pc (p : cpc) : bool :=
   match p with CLoopTop | CPeek | CGotByte | CStoredT | CExiting => true | _ => false end.
 
-Record ginv (r : conn) : Prop := mkG {
-  g_unfl : 0 < unflushed r -> 0 < buffered r \/ inprog r = 1;
-  g_closed : srvClosed r = true -> buffered r = 0 /\ unflushed r = 0 /\ quiet_pc (pc r) = true;
-  g_marked : inmap r = true -> ival r <> 0 -> idle_marked_pc (pc r) = true;
-  g_lost : lost r = 0;
-  g_exit : match pc r with CExiting | CUnreg | CClosed => unflushed r = 0 | _ => True end;
-  g_track : match pc r with CAccepted | CQueued | CUnreg | CClosed => True | _ => inmap r = false -> srvClosed r = true end
+Record cinv (p : spc) (r : conn) : Prop := mkCI {
+  c_lost : lost r = 0;
+  (* a connection closed by closeIdleConns: nothing in the writer, and its goroutine can only leave *)
+  c_closed : srvClosed r = true ->
+               inmap r = false /\ unflushed r = 0 /\ closed_ok_pc (pc r) = true /\ p <> SNotCalled /\
+               (match pc r with CGotByte | CActive | CStopSeen | CExiting | CUnreg | CClosed => True | _ => buffered r = 0 end);
+  (* a connection marked idle (or fresh): nothing in the writer, nothing buffered unless it has just been read *)
+  c_marked : inmap r = true -> ival r <> 0 ->
+               idle_marked_pc (pc r) = true /\ unflushed r = 0 /\ (match pc r with CGotByte | CExiting => True | _ => buffered r = 0 end);
+  c_exit : match pc r with CExiting | CUnreg | CClosed | CAccepted | CQueued => unflushed r = 0 | _ => True end;
+  c_early : match pc r with CAccepted | CQueued => buffered r = 0 /\ srvClosed r = false /\ inmap r = false | _ => True end;
+  c_track : match pc r with CAccepted | CQueued | CUnreg | CClosed => True | _ => inmap r = false -> srvClosed r = true end
 }.
+
+Definition sinv (s : st) : Prop := sd s <> SReturnedErr -> Forall (cinv (sd s)) (conns s).
 
 Ltac gcase F W Hstep c :=
   let r := fresh "r" in let Hn := fresh "Hn" in
   destruct (nth_error (conns _) c) as [r|] eqn:Hn; [|discriminate Hstep];
   let Hg := fresh "Hg" in let Hw := fresh "Hw" in
   pose proof (Forall_nth _ _ _ _ F Hn) as Hg; pose proof (Forall_nth _ _ _ _ W Hn) as Hw;
-  destruct Hg as [G1 G3 G4 G5 G6 G7]; unfold cwf in Hw;
+  destruct Hg as [G1 G2 G3 G4 G5 G6]; unfold cwf in Hw;
   destruct r as [p lid im iv ts sc cc infl buf unf hjk stt del lst lsc abn];
   unfold set_pc, flush_exit, exit_loop in Hstep;
   cbn [pc loopid inmap ival tstart srvClosed cliClosed inflight buffered unflushed hijack started delivered lost lostc abandoned] in *.
 
-Ltac gfin F := unfold set_conns; cbn [conns]; apply Forall_upd; [exact F|];
-  constructor; unfold inprog, quiet_pc, idle_marked_pc in *;
+Ltac gfin F := unfold set_conns; cbn [conns sd]; apply Forall_upd; [exact F|];
+  constructor; unfold inprog, closed_ok_pc, idle_marked_pc in *;
   cbn [pc loopid inmap ival tstart srvClosed cliClosed inflight buffered unflushed hijack started delivered lost lostc abandoned] in *;
   repeat match goal with |- context[if ?b then _ else _] => destruct b eqn:? end;
   try lia; try congruence; try (intros; try discriminate; intuition (try lia; try congruence; try discriminate)).
 
-Lemma ginv_step cf s l s' : Forall ginv (conns s) -> Forall cwf (conns s) -> guard s l = true -> step cf s l = Some s' ->
-  Forall ginv (conns s').
+Lemma cinv_mono p p' r : (p <> SNotCalled -> p' <> SNotCalled) -> cinv p r -> cinv p' r.
+Proof. intros H [G1 G2 G3 G4 G5 G6]. constructor; auto. intros Hs. destruct (G2 Hs) as (A & B & C & D & E). repeat split; auto. Qed.
+
+Lemma sinv_step cf s l s' : inv s -> sinv s -> step cf s l = Some s' -> sinv s'.
 Proof.
-  intros F W Hg Hstep. destruct l; cbn [step] in Hstep.
+  intros I S Hstep Hne.
+  assert (Hne0 : sd s <> SReturnedErr).
+  { intros E. apply Hne. destruct l; cbn [step] in Hstep; unfold shutdown_begun in Hstep; rewrite ?E in Hstep; try discriminate Hstep;
+    repeat match type of Hstep with
+    | context[match ?x with _ => _ end] => destruct x eqn:?; try discriminate Hstep
+    | context[if ?x then _ else _] => destruct x eqn:?; try discriminate Hstep
+    end; injection Hstep as <-; cbn; first [exact E | reflexivity]. }
+  pose proof (S Hne0) as F. pose proof (i_wf _ I) as W. clear S.
+  destruct l; cbn [step] in Hstep.
   - destruct (shutdown_begun s); [discriminate|]. injection Hstep as <-. exact F.
-  - destruct (nth_error (loops s) k) as [lp|]; [|discriminate]. destruct (_ && _); [|discriminate]. injection Hstep as <-. cbn [conns].
-    apply Forall_app. split; [exact F|]. constructor; [|constructor]. constructor; cbn; try lia; try discriminate; reflexivity.
+  - destruct (nth_error (loops s) k) as [lp|]; [|discriminate]. destruct (_ && _); [|discriminate]. injection Hstep as <-. cbn [conns sd].
+    apply Forall_app. split; [exact F|]. constructor; [|constructor]. constructor; cbn; try lia; try discriminate; auto.
   - gcase F W Hstep c. destruct p; try discriminate Hstep. destruct (nth_error (loops s) lid); [|discriminate]. injection Hstep as <-. gfin F.
   - destruct (nth_error (loops s) k) as [lp|]; [|discriminate]. destruct (_ && _); [|discriminate]. injection Hstep as <-. exact F.
-  - gcase F W Hstep c. destruct p; try discriminate Hstep. injection Hstep as <-. gfin F.
-  - gcase F W Hstep c. destruct p; try discriminate Hstep. destruct (deadlines cf && sc) eqn:E; injection Hstep as <-; gfin F.
-  - gcase F W Hstep c. destruct p; try discriminate Hstep. destruct (0 <? buf) eqn:E1; [|destruct (negb sc && (0 <? infl)) eqn:E2; [|discriminate]]; injection Hstep as <-; gfin F.
-  - gcase F W Hstep c. destruct p; try discriminate Hstep. destruct (_ && _) eqn:E; [|discriminate]. injection Hstep as <-. gfin F.
-  - gcase F W Hstep c. destruct p; try discriminate Hstep. injection Hstep as <-. gfin F.
-  - (* LLoadStop *) gcase F W Hstep c. destruct p; try discriminate Hstep. destruct (stop s) eqn:Est; injection Hstep as <-; gfin F.
-  - (* LLookup *) gcase F W Hstep c. destruct p; try discriminate Hstep. destruct im; [|exfalso; destruct (G3 (G7 eq_refl)) as (_ & _ & H); discriminate H]; injection Hstep as <-; gfin F.
-  - gcase F W Hstep c. destruct p; try discriminate Hstep. destruct (deadlines cf && sc) eqn:E; [|destruct (0 <? buf) eqn:E2; [|discriminate]]; injection Hstep as <-; gfin F.
+  - (* LRegIdle *) gcase F W Hstep c. destruct p; try discriminate Hstep. injection Hstep as <-. gfin F.
+  - (* LSetDeadline *) gcase F W Hstep c. destruct p; try discriminate Hstep. destruct (deadlines cf && sc) eqn:E; injection Hstep as <-; gfin F.
+  - (* LPeekOk *) gcase F W Hstep c. destruct p; try discriminate Hstep. destruct (0 <? buf) eqn:E1; [|destruct (negb sc && (0 <? infl)) eqn:E2; [|discriminate]]; injection Hstep as <-; gfin F.
+  - (* LPeekFail *) gcase F W Hstep c. destruct p; try discriminate Hstep. destruct (_ && _) eqn:E; [|discriminate]. injection Hstep as <-. gfin F.
+  - (* LStore0 *) gcase F W Hstep c. destruct p; try discriminate Hstep. injection Hstep as <-. gfin F.
+  - (* LLoadStop: a connection that closeIdleConns has closed can only be here while Shutdown runs, so it sees the stop flag *)
+    gcase F W Hstep c. destruct p; try discriminate Hstep.
+    destruct sc.
+    + destruct (G2 eq_refl) as (A & B & C & D & E).
+      assert (Hst : stop s = true).
+      { rewrite (i_stop _ I). destruct (sd s) eqn:Es; try reflexivity; try congruence.
+        exfalso. destruct (i_ret _ I Es) as [Hc _]. pose proof (Forall_nth _ _ _ _ Hc Hn) as Hp. discriminate Hp. }
+      rewrite Hst in Hstep. injection Hstep as <-. gfin F.
+    + destruct (stop s); injection Hstep as <-; gfin F.
+  - (* LLookup *) gcase F W Hstep c. destruct p; try discriminate Hstep. destruct im; injection Hstep as <-; gfin F.
+  - (* LReadReq *) gcase F W Hstep c. destruct p; try discriminate Hstep.
+    assert (Hsc : sc = false). { destruct sc; [|reflexivity]. destruct (G2 eq_refl) as (_ & _ & H & _). discriminate H. }
+    subst sc. rewrite andb_false_r in Hstep. destruct (0 <? buf) eqn:E2; [|discriminate]. injection Hstep as <-. gfin F.
   - gcase F W Hstep c. destruct p; try discriminate Hstep. injection Hstep as <-. gfin F.
   - gcase F W Hstep c. destruct p; try discriminate Hstep. injection Hstep as <-. gfin F.
   - gcase F W Hstep c. destruct p; try discriminate Hstep. injection Hstep as <-. gfin F.
   - (* LWrite *)
     gcase F W Hstep c. destruct p; try discriminate Hstep.
-    assert (Hsc : sc = false). { destruct sc; [|reflexivity]. destruct (G3 eq_refl) as (_ & _ & H). discriminate H. }
+    assert (Hsc : sc = false). { destruct sc; [|reflexivity]. destruct (G2 eq_refl) as (_ & _ & H & _). discriminate H. }
     subst sc. cbn [orb] in Hstep.
     destruct ((buf <=? 0) || (close || closeOnShutdown cf && stop s) || hjk) eqn:E1.
     + destruct cc; injection Hstep as <-; gfin F.
     + injection Hstep as <-. gfin F.
+  - (* LStoreT *) gcase F W Hstep c. destruct p; try discriminate Hstep. injection Hstep as <-. gfin F.
+  - (* LCheckStop *) gcase F W Hstep c. destruct p; try discriminate Hstep. destruct (stop s); [destruct (sc || cc) eqn:Ecc|]; injection Hstep as <-; gfin F.
   - gcase F W Hstep c. destruct p; try discriminate Hstep. injection Hstep as <-. gfin F.
-  - gcase F W Hstep c. destruct p; try discriminate Hstep. destruct (stop s); [destruct (sc || cc) eqn:Ecc|]; injection Hstep as <-; gfin F.
-  - gcase F W Hstep c. destruct p; try discriminate Hstep. injection Hstep as <-. gfin F.
-  - gcase F W Hstep c. destruct p; try discriminate Hstep. injection Hstep as <-. cbn [conns]. apply Forall_upd; [exact F|].
-    constructor; unfold inprog, quiet_pc, idle_marked_pc in *; cbn in *; try lia; try congruence; intuition (try lia; try congruence; try discriminate).
-  - (* LSetStop *) destruct (sd s); try discriminate Hstep. destruct (loops s); injection Hstep as <-; exact F.
-  - destruct (sd s); try discriminate Hstep. injection Hstep as <-. exact F.
-  - destruct (sd s); try discriminate Hstep. injection Hstep as <-. exact F.
-  - (* LCloseIdle: the guard says no connection with request data in hand is closed *)
-    destruct (sd s); try discriminate Hstep. injection Hstep as <-. cbn [conns]. cbn [guard] in Hg. rewrite forallb_forall in Hg.
-    apply Forall_forall. intros r' Hin. apply in_map_iff in Hin as (r & <- & Hr). rewrite Forall_forall in F. pose proof (F _ Hr) as [G1 G3 G4 G5 G6 G7].
-    specialize (Hg _ Hr). unfold would_close, in_hand in Hg. unfold close_if_idle.
-    destruct (inmap r && negb (ival r =? 0) && (ival r <=? now s)) eqn:E; [|constructor; auto].
-    cbn [andb negb] in Hg. apply negb_true_iff in Hg. apply orb_false_iff in Hg as [Hg Hg3]. apply orb_false_iff in Hg as [Hg1 Hg2].
+  - gcase F W Hstep c. destruct p; try discriminate Hstep. injection Hstep as <-. cbn [conns sd]. apply Forall_upd; [exact F|].
+    constructor; unfold inprog, closed_ok_pc, idle_marked_pc in *; cbn in *; try lia; try congruence; auto; intuition (try lia; try congruence; try discriminate).
+  - (* LSetStop *) destruct (sd s) eqn:Es; try discriminate Hstep. destruct (loops s); injection Hstep as <-; cbn [conns sd set_sd];
+      (eapply Forall_impl; [|exact F]; intros r; apply cinv_mono; intros _; discriminate).
+  - destruct (sd s) eqn:Es; try discriminate Hstep. injection Hstep as <-. cbn [conns sd]. eapply Forall_impl; [|exact F]. intros r; apply cinv_mono; intros _; discriminate.
+  - destruct (sd s) eqn:Es; try discriminate Hstep. injection Hstep as <-. cbn [conns sd]. eapply Forall_impl; [|exact F]. intros r; apply cinv_mono; intros _; discriminate.
+  - (* LCloseIdle *)
+    destruct (sd s) eqn:Es; try discriminate Hstep. injection Hstep as <-. cbn [conns sd].
+    apply Forall_forall. intros r' Hin. apply in_map_iff in Hin as (r & <- & Hr). rewrite Forall_forall in F. pose proof (F _ Hr) as HF.
+    apply (cinv_mono SLoop SReadServing) in HF; [|intros _; discriminate]. destruct HF as [G1 G2 G3 G4 G5 G6].
+    unfold close_if_idle. destruct (inmap r && negb (ival r =? 0) && (ival r <=? now s)) eqn:E; [|constructor; auto].
     apply andb_true_iff in E as [E E3]. apply andb_true_iff in E as [E1 E2]. apply negb_true_iff in E2.
-    rewrite Forall_forall in W. destruct (W _ Hr) as (_ & _ & _ & _ & Hu & Hb & _).
-    specialize (G4 E1). assert (Hiv : ival r <> 0) by lia. specialize (G4 Hiv). unfold idle_marked_pc in G4.
-    assert (Hu0 : unflushed r = 0).
-    { destruct (Z.eq_dec (unflushed r) 0) as [H0|H0]; [exact H0|]. exfalso. assert (Hpos : 0 < unflushed r) by lia.
-      destruct (G1 Hpos) as [H|H]; [lia|]. unfold inprog in H. destruct (pc r); try discriminate G4; discriminate H. }
-    assert (Hq : quiet_pc (pc r) = true).
-    { unfold quiet_pc. destruct (pc r); try discriminate G4; try reflexivity. discriminate Hg3. }
+    assert (Hiv : ival r <> 0) by lia. destruct (G3 E1 Hiv) as (M1 & M2 & M3). unfold idle_marked_pc in M1.
     constructor; cbn [pc loopid inmap ival tstart srvClosed cliClosed inflight buffered unflushed hijack started delivered lost lostc abandoned]; auto; try discriminate.
-    + intros _. split; [lia|]. split; assumption.
+    + intros _. split; [reflexivity|]. split; [exact M2|]. split; [unfold closed_ok_pc; destruct (pc r); try discriminate M1; reflexivity|].
+      split; [discriminate|]. destruct (pc r); try discriminate M1; auto.
+    + destruct (pc r); try discriminate M1; auto.
     + destruct (pc r); auto.
-  - destruct (sd s); try discriminate Hstep. injection Hstep as <-. exact F.
-  - destruct (sd s); try discriminate Hstep. destruct (open s =? 0); injection Hstep as <-; exact F.
-  - destruct (sd s); try discriminate Hstep. injection Hstep as <-. exact F.
-  - destruct (sd s); try discriminate Hstep. injection Hstep as <-. exact F.
-  - (* LSend *)
-    gcase F W Hstep c. destruct cc; [discriminate|]. injection Hstep as <-. gfin F.
+  - destruct (sd s) eqn:Es; try discriminate Hstep. injection Hstep as <-. cbn [conns sd set_sd]. eapply Forall_impl; [|exact F]. intros r; apply cinv_mono; intros _; destruct (serving s =? 0); discriminate.
+  - destruct (sd s) eqn:Es; try discriminate Hstep. destruct (open s =? 0); injection Hstep as <-; cbn [conns sd set_sd]; (eapply Forall_impl; [|exact F]; intros r; apply cinv_mono; intros _; discriminate).
+  - destruct (sd s) eqn:Es; try discriminate Hstep. injection Hstep as <-. cbn [conns sd set_sd]. eapply Forall_impl; [|exact F]. intros r; apply cinv_mono; intros _; discriminate.
+  - destruct (sd s) eqn:Es; try discriminate Hstep. injection Hstep as <-. cbn [sd] in Hne. congruence.
+  - (* LSend *) gcase F W Hstep c. destruct cc; [discriminate|]. injection Hstep as <-. gfin F.
   - gcase F W Hstep c. injection Hstep as <-. gfin F.
   - destruct (d <? 0); [discriminate|]. injection Hstep as <-. exact F.
 Qed.
 
-Lemma ginv_greach cf s : greach cf s -> Forall ginv (conns s).
+Lemma sinv_reach cf s : reach cf s -> sinv s.
 Proof.
-  induction 1 as [|s l s' G IH Hg Hs]; [constructor|].
-  eapply ginv_step; eauto. exact (accounting _ _ (greach_reach _ _ G)).
+  induction 1 as [|s l s' R IH Hs]; [intros _; constructor|]. exact (sinv_step _ _ _ _ (inv_reach _ _ R) IH Hs).
 Qed.
 
-(* On the guarded schedules no response of a started handler is made undeliverable by the server, at any moment ... *)
-Lemma nothing_lost cf s : greach cf s -> Forall (fun r => lost r = 0) (conns s).
-Proof. intros G. eapply Forall_impl; [|exact (ginv_greach _ _ G)]. intros r H. apply H. Qed.
+(* As long as Shutdown has not returned an error, no response of a started handler is made undeliverable by the server - for every
+   interleaving, with pipelining, with requests arriving while idle connections are being closed ... *)
+Lemma nothing_lost cf s : reach cf s -> sd s <> SReturnedErr -> Forall (fun r => lost r = 0) (conns s).
+Proof. intros R Hne. eapply Forall_impl; [|exact (sinv_reach _ _ R Hne)]. intros r H. apply H. Qed.
 
 (* ... so when a connection is done, every handler started on it has its response at the client, unless the client went away *)
-Lemma started_handlers_answered cf s : greach cf s ->
+Lemma started_handlers_answered cf s : reach cf s -> sd s <> SReturnedErr ->
   Forall (fun r => pc r = CClosed -> started r = delivered r + lostc r) (conns s).
 Proof.
-  intros G. pose proof (ginv_greach _ _ G) as F. pose proof (accounting _ _ (greach_reach _ _ G)) as W.
-  rewrite Forall_forall in *. intros r Hr Hp. destruct (F _ Hr) as [_ _ _ G5 G6 _]. destruct (W _ Hr) as (Ha & _).
-  unfold inprog in Ha. rewrite Hp in Ha, G6. lia.
+  intros R Hne. pose proof (sinv_reach _ _ R Hne) as F. pose proof (accounting _ _ R) as W.
+  rewrite Forall_forall in *. intros r Hr Hp. destruct (F _ Hr) as [G1 _ _ G4 _ _]. destruct (W _ Hr) as (Ha & _).
+  unfold inprog in Ha. rewrite Hp in Ha, G4. lia.
 Qed.
 
-Lemma answered_when_returned cf s : greach cf s -> sd s = SReturnedNil ->
-  Forall (fun r => started r = delivered r + lostc r /\ (cliClosed r = false -> lostc r = 0 -> started r = delivered r)) (conns s).
+Lemma answered_when_returned cf s : reach cf s -> sd s = SReturnedNil ->
+  Forall (fun r => started r = delivered r + lostc r /\ lost r = 0) (conns s).
 Proof.
-  intros G Hs. destruct (returned_nil _ _ (greach_reach _ _ G) Hs) as (Hc & _).
-  pose proof (started_handlers_answered _ _ G) as H. rewrite Forall_forall in *. intros r Hr.
-  specialize (H _ Hr (Hc _ Hr)). split; [exact H|]. intros _ Hl. lia.
+  intros R Hs. destruct (returned_nil _ _ R Hs) as (Hc & _).
+  assert (Hne : sd s <> SReturnedErr) by congruence.
+  pose proof (started_handlers_answered _ _ R Hne) as H. pose proof (nothing_lost _ _ R Hne) as HL. rewrite Forall_forall in *. intros r Hr.
+  split; [exact (H _ Hr (Hc _ Hr))|exact (HL _ Hr)].
 Qed.
 
 (* the schedule of the repaired finding shutdown-drops-unflushed-pipelined-response (66dbd41): two requests in one segment, Shutdown while
@@ -170,24 +193,15 @@ Definition closeidle_trace : list label :=
    LSetStop; LCloseListeners; LAcceptFail 0; LCloseDone; LCloseIdle; LReadServing; LReadOpen;
    LStore0 0; LLoadStop 0; LLookup 0; LUnregIdle 0; LOpenDec 0; LTicker; LCloseIdle; LReadServing; LReadOpen].
 
-(* FINDING closeidle-drops-unflushed-response-of-pipelined-conn: two requests in one segment; the first is answered, its response
-   stays in the writer because the second is buffered, the connection is marked idle (Store(ctx.time)) and passes the stop check;
-   Shutdown begins and closeIdleConns closes it; the goroutine leaves (untracked / SetReadDeadline error) and the response of the first
-   request - whose handler ran before Shutdown - is never delivered *)
+(* the schedule of the repaired finding closeidle-drops-unflushed-response-of-pipelined-conn (ce44e94): two requests in one segment; the first is
+   answered, its response stays in the writer because the second is buffered; the connection is NOT marked idle any more, so the closeIdleConns
+   pass of a Shutdown that begins now leaves it alone; the second request is served, the stop check flushes both responses *)
 Definition closeidle_unflushed_trace : list label :=
   [LServeStart; LAccept 0; LOpenInc 0; LSend 0; LSend 0; LRegIdle 0; LSetDeadline 0; LPeekOk 0; LStore0 0; LLoadStop 0; LReadReq 0;
    LHandlerEnd 0; LWrite 0 false; LStoreT 0; LCheckStop 0;
    LSetStop; LCloseListeners; LAcceptFail 0; LCloseDone; LCloseIdle; LReadServing; LReadOpen;
-   LSetDeadline 0; LPeekOk 0; LStore0 0; LLoadStop 0; LLookup 0; LUnregIdle 0; LOpenDec 0; LTicker; LCloseIdle; LReadServing; LReadOpen].
-Definition closeidle_unflushed_trace_dl : list label :=
-  [LServeStart; LAccept 0; LOpenInc 0; LSend 0; LSend 0; LRegIdle 0; LSetDeadline 0; LPeekOk 0; LStore0 0; LLoadStop 0; LReadReq 0;
-   LHandlerEnd 0; LWrite 0 false; LStoreT 0; LCheckStop 0;
-   LSetStop; LCloseListeners; LAcceptFail 0; LCloseDone; LCloseIdle; LReadServing; LReadOpen;
-   LSetDeadline 0; LUnregIdle 0; LOpenDec 0; LTicker; LCloseIdle; LReadServing; LReadOpen].
-
-Definition refuted_by (cf : cfg) (tr : list label) : Prop :=
-  exists s, run cf init tr = Some s /\ reach cf s /\ sd s = SReturnedNil /\
-            exists r, In r (conns s) /\ cliClosed r = false /\ lostc r = 0 /\ delivered r < started r /\ 0 < lost r.
+   LSetDeadline 0; LPeekOk 0; LStore0 0; LLoadStop 0; LLookup 0; LReadReq 0; LHandlerEnd 0; LWrite 0 false; LStoreT 0; LCheckStop 0;
+   LUnregIdle 0; LOpenDec 0; LTicker; LCloseIdle; LReadServing; LReadOpen].
 
 Lemma unflushed_is_flushed_now :
   match run (mkCfg false false) init unflushed_trace with
@@ -196,16 +210,16 @@ Lemma unflushed_is_flushed_now :
   end.
 Proof. vm_compute. repeat split; reflexivity. Qed.
 
-Lemma refuted_closeidle_unflushed : refuted_by (mkCfg false false) closeidle_unflushed_trace /\ refuted_by (mkCfg true false) closeidle_unflushed_trace_dl.
-Proof.
-  split.
-  - destruct (run (mkCfg false false) init closeidle_unflushed_trace) as [s|] eqn:E; [|vm_compute in E; discriminate].
-    exists s. split; [exact E|]. split; [eapply run_reach; [apply reach_init|exact E]|]. vm_compute in E. injection E as <-.
-    split; [reflexivity|]. eexists. split; [left; reflexivity|]. cbn. repeat split; try reflexivity; lia.
-  - destruct (run (mkCfg true false) init closeidle_unflushed_trace_dl) as [s|] eqn:E; [|vm_compute in E; discriminate].
-    exists s. split; [exact E|]. split; [eapply run_reach; [apply reach_init|exact E]|]. vm_compute in E. injection E as <-.
-    split; [reflexivity|]. eexists. split; [left; reflexivity|]. cbn. repeat split; try reflexivity; lia.
-Qed.
+Lemma pipelined_conn_is_not_closed_as_idle_now :
+  (match run (mkCfg false false) init closeidle_unflushed_trace with
+   | Some s => sd s = SReturnedNil /\ map started (conns s) = [2] /\ map delivered (conns s) = [2] /\ n_lost s = 0 /\ map srvClosed (conns s) = [false]
+   | None => False
+   end) /\
+  (match run (mkCfg true false) init closeidle_unflushed_trace with
+   | Some s => sd s = SReturnedNil /\ map started (conns s) = [2] /\ map delivered (conns s) = [2] /\ n_lost s = 0
+   | None => False
+   end).
+Proof. split; vm_compute; repeat split; reflexivity. Qed.
 
 Lemma closeidle_request_in_hand_is_not_served_now :
   match run (mkCfg false false) init closeidle_trace with
@@ -213,19 +227,6 @@ Lemma closeidle_request_in_hand_is_not_served_now :
   | None => False
   end.
 Proof. vm_compute. repeat split; reflexivity. Qed.
-
-(* both traces are excluded by the guard, and only at the step the findings are about *)
-Fixpoint first_unguarded (cf : cfg) (s : st) (tr : list label) : option label :=
-  match tr with
-  | [] => None
-  | l :: r => if guard s l then match step cf s l with Some s' => first_unguarded cf s' r | None => None end else Some l
-  end.
-
-Lemma guard_excludes_witnesses :
-  first_unguarded (mkCfg false false) init unflushed_trace = None /\
-  first_unguarded (mkCfg false false) init closeidle_unflushed_trace = Some LCloseIdle /\
-  first_unguarded (mkCfg true false) init closeidle_unflushed_trace_dl = Some LCloseIdle.
-Proof. repeat split; vm_compute; reflexivity. Qed.
 
 (* ---- idle connections ------------------------------------------------------------------------------------------------------- *)
 (* one closeIdleConns pass closes every connection that is marked idle since a past time (and takes it out of the map) *)
@@ -272,7 +273,6 @@ Lemma graceful_example :
       match run (mkCfg false false) s1 graceful_shutdown with
       | Some s => sd s = SReturnedNil /\ map started (conns s) = [1; 1; 1] /\ map delivered (conns s) = [1; 1; 1]
                   /\ map srvClosed (conns s) = [true; true; false] /\ n_lost s = 0 /\ doneClosed s = true
-                  /\ first_unguarded (mkCfg false false) init (graceful_trace ++ graceful_shutdown) = None
       | None => False
       end
   | None => False
@@ -290,16 +290,27 @@ Proof.
   intros R H. apply (done_closed _ _ R). unfold done_must_be_closed in H. destruct (sd s) eqn:E; try contradiction; cbn; auto.
 Qed.
 
-Lemma answered_on_guarded_schedules cf s : greach cf s -> Forall (fun r => pc r = CClosed -> answered r) (conns s).
+Lemma answered_when_done cf s : reach cf s -> sd s <> SReturnedErr -> Forall (fun r => pc r = CClosed -> answered r) (conns s).
 Proof. exact (started_handlers_answered cf s). Qed.
 
-Lemma answered_at_return cf s : greach cf s -> sd s = SReturnedNil -> Forall answered (conns s).
-Proof.
-  intros G Hs. eapply Forall_impl; [|exact (answered_when_returned _ _ G Hs)]. intros r [H _]. exact H.
-Qed.
+Lemma answered_at_return cf s : reach cf s -> sd s = SReturnedNil -> Forall (fun r => answered r /\ lost r = 0) (conns s).
+Proof. exact (answered_when_returned cf s). Qed.
 
-Lemma refuted_spec cf tr : refuted_by cf tr -> exists s, reach cf s /\ sd s = SReturnedNil /\ exists r, In r (conns s) /\ dropped_response r.
-Proof. intros (s & _ & R & Hs & r & Hin & H). exists s. split; [exact R|]. split; [exact Hs|]. exists r. split; [exact Hin|exact H]. Qed.
+(* once Shutdown has given up the guarantee is gone: the stop flag is reset, a connection closed as idle with a request in hand serves it *)
+Definition gave_up_trace : list label :=
+  [LServeStart; LAccept 0; LOpenInc 0; LSend 0; LRegIdle 0; LSetDeadline 0; LPeekOk 0; LStore0 0; LLoadStop 0; LReadReq 0;
+   LHandlerEnd 0; LWrite 0 false; LStoreT 0; LCheckStop 0; LSetDeadline 0;
+   LAccept 0; LOpenInc 1; LSend 1; LRegIdle 1; LSetDeadline 1; LPeekOk 1; LStore0 1; LLoadStop 1; LReadReq 1;
+   LSend 0; LPeekOk 0;
+   LSetStop; LCloseListeners; LAcceptFail 0; LCloseDone; LCloseIdle; LReadServing; LReadOpen; LCtxExpire;
+   LStore0 0; LLoadStop 0; LReadReq 0; LHandlerEnd 0; LWrite 0 false].
+
+Lemma after_error_return_a_response_can_be_lost :
+  match run (mkCfg false false) init gave_up_trace with
+  | Some s => sd s = SReturnedErr /\ map lost (conns s) = [1; 0]
+  | None => False
+  end.
+Proof. vm_compute. repeat split; reflexivity. Qed.
 
 Lemma idle_closed_by_pass cf s s' : step cf s LCloseIdle = Some s' ->
   forall c r, nth_error (conns s) c = Some r -> idle_keepalive s r ->
